@@ -429,183 +429,57 @@ theorem lastStepName_congr (ms ms' : List (String × Mapping)) (h : ms.map proj 
     rfl
   rw [e, e, h]
 
-theorem addAfterLookup_spec (ms : List (String × Mapping)) (idx : Nat) (l l' : Lookup)
-    (h : addAfterLookup ms idx l = .ok l') :
-    l'.field = l.field ∧ l'.table = l.table ∧
-      (l.table ≠ "PersonContact" → ∃ fi ln, firstInstance ms l.table = some fi ∧
-        lastStepName ms l.table = some ln ∧ (fi < idx ∨ l'.after.isSome) ∧
-        (l.after = none → fi < idx ∨ l'.after = some ln)) := by
-  unfold addAfterLookup at h
+/-- what the post-process does to one lookup (it cannot fail) -/
+theorem addAfterLookup_spec (ms : List (String × Mapping)) (idx : Nat) (l : Lookup) :
+    (addAfterLookup ms idx l).field = l.field ∧ (addAfterLookup ms idx l).table = l.table ∧
+      (l.table ≠ "PersonContact" →
+        ((firstInstance ms l.table = none ∨ lastStepName ms l.table = none) ∧
+            addAfterLookup ms idx l = l) ∨
+        ∃ fi ln, firstInstance ms l.table = some fi ∧ lastStepName ms l.table = some ln ∧
+          (l.after = none → fi < idx ∨ (addAfterLookup ms idx l).after = some ln)) := by
+  unfold addAfterLookup
   by_cases hpc : l.table = "PersonContact"
-  · simp only [hpc, beq_self_eq_true, if_true, Except.ok.injEq] at h
-    subst h
-    exact ⟨rfl, rfl, fun hn => absurd hpc hn⟩
+  · simp [hpc]
   · have hb : (l.table == "PersonContact") = false := by simpa using hpc
-    simp only [hb, Bool.false_eq_true, if_false] at h
+    simp only [hb, Bool.false_eq_true, if_false]
     cases hfi : firstInstance ms l.table with
-    | none => simp [hfi] at h
+    | none => exact ⟨rfl, rfl, fun _ => Or.inl ⟨Or.inl rfl, rfl⟩⟩
     | some fi =>
       cases hln : lastStepName ms l.table with
-      | none => simp [hfi, hln] at h
+      | none => exact ⟨rfl, rfl, fun _ => Or.inl ⟨Or.inr rfl, rfl⟩⟩
       | some ln =>
-        simp only [hfi, hln] at h
+        simp only
         by_cases hge : fi ≥ idx
-        · simp only [hge, if_true] at h
+        · simp only [hge, if_true]
           by_cases hsome : l.after.isSome
-          · simp only [hsome, if_true, Except.ok.injEq] at h
-            subst h
-            refine ⟨rfl, rfl, fun _ => ⟨fi, ln, rfl, rfl, Or.inr hsome, ?_⟩⟩
+          · simp only [hsome, if_true]
+            refine ⟨trivial, trivial, fun _ => Or.inr ⟨fi, ln, rfl, rfl, ?_⟩⟩
             intro hnone; rw [hnone] at hsome; exact absurd hsome (by simp)
-          · simp only [hsome, Bool.false_eq_true, if_false, Except.ok.injEq] at h
-            subst h
-            exact ⟨rfl, rfl, fun _ => ⟨fi, ln, rfl, rfl, Or.inr rfl, fun _ => Or.inr rfl⟩⟩
-        · simp only [hge, if_false, Except.ok.injEq] at h
-          subst h
+          · simp only [hsome, Bool.false_eq_true, if_false]
+            exact ⟨trivial, trivial, fun _ => Or.inr ⟨fi, ln, rfl, rfl, fun _ => Or.inr rfl⟩⟩
+        · simp only [hge, if_false]
           have : fi < idx := by omega
-          exact ⟨rfl, rfl, fun _ => ⟨fi, ln, rfl, rfl, Or.inl this, fun _ => Or.inl this⟩⟩
-
-theorem addAfterLookup_error (ms : List (String × Mapping)) (idx : Nat) (l : Lookup) (e : Err)
-    (h : addAfterLookup ms idx l = .error e) :
-    e = .keyError l.table ∧ l.table ≠ "PersonContact" ∧
-      (firstInstance ms l.table = none ∨ lastStepName ms l.table = none) := by
-  unfold addAfterLookup at h
-  by_cases hpc : l.table = "PersonContact"
-  · simp [hpc] at h
-  · have hb : (l.table == "PersonContact") = false := by simpa using hpc
-    simp only [hb, Bool.false_eq_true, if_false] at h
-    cases hfi : firstInstance ms l.table with
-    | none =>
-      simp only [hfi] at h
-      injection h with h
-      exact ⟨h.symm, hpc, Or.inl rfl⟩
-    | some fi =>
-      cases hln : lastStepName ms l.table with
-      | none =>
-        simp only [hfi, hln] at h
-        injection h with h
-        exact ⟨h.symm, hpc, Or.inr rfl⟩
-      | some ln =>
-        simp only [hfi, hln] at h
-        split at h
-        · split at h <;> simp at h
-        · simp at h
-
-theorem addAfterLookups_spec (ms : List (String × Mapping)) (idx : Nat) :
-    ∀ (ls ls' : List Lookup), addAfterLookups ms idx ls = .ok ls' →
-      List.Forall₂ (fun l l' => addAfterLookup ms idx l = .ok l') ls ls'
-  | [], ls', h => by
-    simp only [addAfterLookups, Except.ok.injEq] at h
-    subst h
-    exact List.Forall₂.nil
-  | l :: ls, ls', h => by
-    unfold addAfterLookups at h
-    split at h
-    · exact absurd h (by simp)
-    · rename_i l' hl'
-      split at h
-      · exact absurd h (by simp)
-      · rename_i ls2 hls2
-        injection h with h
-        subst h
-        exact List.Forall₂.cons hl' (addAfterLookups_spec ms idx ls ls2 hls2)
-
-theorem addAfterLookups_error (ms : List (String × Mapping)) (idx : Nat) :
-    ∀ (ls : List Lookup) (e : Err), addAfterLookups ms idx ls = .error e →
-      ∃ l ∈ ls, addAfterLookup ms idx l = .error e
-  | [], e, h => by simp [addAfterLookups] at h
-  | l :: ls, e, h => by
-    unfold addAfterLookups at h
-    split at h
-    · rename_i e' he'
-      injection h with h
-      subst h
-      exact ⟨l, by simp, he'⟩
-    · split at h
-      · rename_i e' he'
-        injection h with h
-        subst h
-        obtain ⟨l2, hl2, h2⟩ := addAfterLookups_error ms idx ls _ he'
-        exact ⟨l2, by simp [hl2], h2⟩
-      · exact absurd h (by simp)
+          exact ⟨trivial, trivial, fun _ => Or.inr ⟨fi, ln, rfl, rfl, fun _ => Or.inl this⟩⟩
 
 theorem addAfterFrom_spec (ms : List (String × Mapping)) :
-    ∀ (l : List (String × Mapping)) (idx : Nat) (out : List (String × Mapping)),
-      addAfterFrom ms idx l = .ok out →
-      ∀ i, (l[i]? = none → out[i]? = none) ∧
-        ∀ p, l[i]? = some p → ∃ ls, addAfterLookups ms (idx + i) p.2.lookups = .ok ls ∧
-          out[i]? = some (p.1, { p.2 with lookups := ls })
-  | [], idx, out, h => by
-    simp only [addAfterFrom, Except.ok.injEq] at h
-    subst h
-    intro i
-    simp
-  | (n, m) :: rest, idx, out, h => by
-    unfold addAfterFrom at h
-    split at h
-    · exact absurd h (by simp)
-    · rename_i ls hls
-      split at h
-      · exact absurd h (by simp)
-      · rename_i rest' hrest'
-        injection h with h
-        subst h
-        intro i
-        cases i with
-        | zero =>
-          refine ⟨by simp, ?_⟩
-          intro p hp
-          simp only [List.getElem?_cons_zero, Option.some.injEq] at hp
-          subst hp
-          exact ⟨ls, by simpa using hls, by simp⟩
-        | succ i =>
-          have ih := addAfterFrom_spec ms rest (idx + 1) rest' hrest' i
-          refine ⟨by simpa using ih.1, ?_⟩
-          intro p hp
-          simp only [List.getElem?_cons_succ] at hp
-          obtain ⟨ls2, h1, h2⟩ := ih.2 p hp
-          refine ⟨ls2, ?_, by simpa using h2⟩
-          have : idx + (i + 1) = idx + 1 + i := by omega
-          rw [this]; exact h1
+    ∀ (l : List (String × Mapping)) (idx : Nat) (i : Nat),
+      (addAfterFrom ms idx l)[i]? =
+        (l[i]?).map (fun p => (p.1, { p.2 with lookups := p.2.lookups.map (addAfterLookup ms (idx + i)) }))
+  | [], idx, i => by simp [addAfterFrom]
+  | (n, m) :: rest, idx, i => by
+    cases i with
+    | zero => simp [addAfterFrom]
+    | succ i =>
+      have ih := addAfterFrom_spec ms rest (idx + 1) i
+      have e : idx + (i + 1) = idx + 1 + i := by omega
+      simp only [addAfterFrom, List.getElem?_cons_succ, ih, e]
 
 theorem addAfterFrom_proj (ms : List (String × Mapping)) :
-    ∀ (l : List (String × Mapping)) (idx : Nat) (out : List (String × Mapping)),
-      addAfterFrom ms idx l = .ok out → out.map proj = l.map proj
-  | [], idx, out, h => by
-    simp only [addAfterFrom, Except.ok.injEq] at h
-    subst h; rfl
-  | (n, m) :: rest, idx, out, h => by
-    unfold addAfterFrom at h
-    split at h
-    · exact absurd h (by simp)
-    · split at h
-      · exact absurd h (by simp)
-      · rename_i rest' hrest'
-        injection h with h
-        subst h
-        simp only [List.map_cons]
-        rw [addAfterFrom_proj ms rest (idx + 1) rest' hrest']
-        rfl
-
-theorem addAfterFrom_error (ms : List (String × Mapping)) :
-    ∀ (l : List (String × Mapping)) (idx : Nat) (e : Err),
-      addAfterFrom ms idx l = .error e →
-      ∃ p ∈ l, ∃ lk ∈ p.2.lookups, ∃ j, addAfterLookup ms j lk = .error e
-  | [], idx, e, h => by simp [addAfterFrom] at h
-  | (n, m) :: rest, idx, e, h => by
-    unfold addAfterFrom at h
-    split at h
-    · rename_i e' he'
-      injection h with h
-      subst h
-      obtain ⟨lk, hlk, h2⟩ := addAfterLookups_error ms idx _ _ he'
-      exact ⟨(n, m), by simp, lk, hlk, idx, h2⟩
-    · split at h
-      · rename_i e' he'
-        injection h with h
-        subst h
-        obtain ⟨p, hp, lk, hlk, j, h2⟩ := addAfterFrom_error ms rest (idx + 1) _ he'
-        exact ⟨p, by simp [hp], lk, hlk, j, h2⟩
-      · exact absurd h (by simp)
+    ∀ (l : List (String × Mapping)) (idx : Nat), (addAfterFrom ms idx l).map proj = l.map proj
+  | [], idx => rfl
+  | (n, m) :: rest, idx => by
+    simp only [addAfterFrom, List.map_cons, addAfterFrom_proj ms rest (idx + 1)]
+    rfl
 
 theorem firstInstance_none (ms : List (String × Mapping)) (sobj : String) :
     firstInstance ms sobj = none ↔ ∀ p ∈ ms, p.2.sfObject ≠ sobj := by
@@ -677,51 +551,35 @@ def SameButAfter (p o : String × Mapping) : Prop :=
     o.2.upsertKey = p.2.upsertKey ∧ o.2.filters = p.2.filters ∧
     o.2.lookups.map (fun l => (l.field, l.table)) = p.2.lookups.map (fun l => (l.field, l.table))
 
-theorem forall2_keys (ms : List (String × Mapping)) (idx : Nat) {ls ls' : List Lookup}
-    (hf : List.Forall₂ (fun l l' => addAfterLookup ms idx l = .ok l') ls ls') :
-    ls'.map (fun l => (l.field, l.table)) = ls.map (fun l => (l.field, l.table)) := by
-  induction hf with
-  | nil => rfl
-  | cons h1 _ ih =>
-    have := addAfterLookup_spec ms idx _ _ h1
-    simp only [List.map_cons, ih, this.1, this.2.1]
-
-theorem addAfterLookups_keys (ms : List (String × Mapping)) (idx : Nat)
-    (ls ls' : List Lookup) (h : addAfterLookups ms idx ls = .ok ls') :
-    ls'.map (fun l => (l.field, l.table)) = ls.map (fun l => (l.field, l.table)) :=
-  forall2_keys ms idx (addAfterLookups_spec ms idx ls ls' h)
+theorem addAfterLookups_keys (ms : List (String × Mapping)) (idx : Nat) (ls : List Lookup) :
+    (ls.map (addAfterLookup ms idx)).map (fun l => (l.field, l.table)) = ls.map (fun l => (l.field, l.table)) := by
+  rw [List.map_map]
+  apply List.map_congr_left
+  intro l _
+  have := addAfterLookup_spec ms idx l
+  simp only [Function.comp, this.1, this.2.1]
 
 theorem addAfterFrom_same (ms : List (String × Mapping)) :
-    ∀ (l : List (String × Mapping)) (idx : Nat) (out : List (String × Mapping)),
-      addAfterFrom ms idx l = .ok out → List.Forall₂ SameButAfter l out
-  | [], idx, out, h => by
-    simp only [addAfterFrom, Except.ok.injEq] at h
-    subst h; exact List.Forall₂.nil
-  | (n, m) :: rest, idx, out, h => by
-    unfold addAfterFrom at h
-    split at h
-    · exact absurd h (by simp)
-    · rename_i ls hls
-      split at h
-      · exact absurd h (by simp)
-      · rename_i rest' hrest'
-        injection h with h
-        subst h
-        refine List.Forall₂.cons ?_ (addAfterFrom_same ms rest (idx + 1) rest' hrest')
-        exact ⟨rfl, rfl, rfl, rfl, rfl, rfl, addAfterLookups_keys ms idx _ _ hls⟩
+    ∀ (l : List (String × Mapping)) (idx : Nat), List.Forall₂ SameButAfter l (addAfterFrom ms idx l)
+  | [], idx => List.Forall₂.nil
+  | (n, m) :: rest, idx => by
+    simp only [addAfterFrom]
+    refine List.Forall₂.cons ?_ (addAfterFrom_same ms rest (idx + 1))
+    exact ⟨rfl, rfl, rfl, rfl, rfl, rfl, addAfterLookups_keys ms idx _⟩
 
 /-! ### the pipeline -/
 
 theorem mappingFromRecipe_ok (tables : List TableInfo) (deps : List Dep) (decls : List Decl)
     (out : List (String × Mapping)) (h : mappingFromRecipe tables deps decls = .ok out) :
     ∃ order steps ms, preMapping tables deps decls = .ok (order, steps, ms) ∧
-      addAfterStatements ms = .ok out := by
+      addAfterStatements ms = out := by
   unfold mappingFromRecipe at h
   cases hp : preMapping tables deps decls with
   | error e => rw [hp] at h; simp at h
   | ok v =>
     obtain ⟨order, steps, ms⟩ := v
     rw [hp] at h
+    simp only [Except.ok.injEq] at h
     exact ⟨order, steps, ms, rfl, h⟩
 
 theorem preMapping_ok (tables : List TableInfo) (deps : List Dep) (decls : List Decl)
@@ -758,5 +616,47 @@ theorem removePersonContactField_names (tables : List TableInfo) :
   intro t _
   simp only [Function.comp]
   split <;> rfl
+
+/-! ### totality glue -/
+
+theorem findRecordTypeColumn_ok_of_le_one (table : String) (fields : List String)
+    (h : (fields.filter isRecordTypeName).length ≤ 1) :
+    ∃ rt, findRecordTypeColumn table fields = .ok rt := by
+  unfold findRecordTypeColumn
+  cases hf : fields.filter isRecordTypeName with
+  | nil => exact ⟨none, rfl⟩
+  | cons c rest =>
+    cases rest with
+    | nil => exact ⟨some c, rfl⟩
+    | cons d r => rw [hf] at h; simp at h
+
+theorem mappingOfStep_total (deps : List Dep) (all : List LoadStep) (s : LoadStep)
+    (h : (s.fields.filter isRecordTypeName).length ≤ 1) : ∃ p, mappingOfStep deps all s = .ok p := by
+  obtain ⟨rt, hrt⟩ := findRecordTypeColumn_ok_of_le_one s.table s.fields h
+  unfold mappingOfStep
+  rw [hrt]
+  exact ⟨_, rfl⟩
+
+theorem mappingsOfSteps_total (deps : List Dep) (all : List LoadStep) :
+    ∀ (steps : List LoadStep) (acc : List (String × Mapping)),
+      (∀ s ∈ steps, (s.fields.filter isRecordTypeName).length ≤ 1) →
+      ∃ ms, mappingsOfSteps deps all steps acc = .ok ms
+  | [], acc, _ => ⟨acc, rfl⟩
+  | s :: rest, acc, h => by
+    obtain ⟨p, hp⟩ := mappingOfStep_total deps all s (h s (by simp))
+    obtain ⟨n, m⟩ := p
+    unfold mappingsOfSteps
+    rw [hp]
+    exact mappingsOfSteps_total deps all rest _ (fun s' hs' => h s' (by simp [hs']))
+
+theorem removePersonContactField_fields (tables : List TableInfo) (t : TableInfo)
+    (ht : t ∈ removePersonContactField tables) :
+    ∃ t0 ∈ tables, t.name = t0.name ∧ t.fields.Sublist t0.fields := by
+  unfold removePersonContactField at ht
+  obtain ⟨t0, ht0, e⟩ := List.mem_map.mp ht
+  refine ⟨t0, ht0, ?_⟩
+  split at e
+  · subst e; exact ⟨rfl, List.filter_sublist⟩
+  · subst e; exact ⟨rfl, List.Sublist.refl _⟩
 
 end SnowModel.Proofs.C16
